@@ -197,7 +197,7 @@ Proof.
 Qed.
 
 (* building a related value from its parts *)
-Lemma rel_with_base a e c rg al tg :
+Lemma rel_with_base e c rg al tg :
   (forall s, view c s -> genv e s) ->
   (forall g, cgamma (fst (rg g)) (creators c g)) ->
   (forall g, igamma (snd (rg g)) c g) -> cwf c ->
@@ -245,10 +245,800 @@ Proof.
 Qed.
 
 Lemma eval_le_var v s : eval_le (le_var v) s = s v.
-Proof. unfold eval_le, le_var. simpl. lia. Qed.
+Proof. unfold eval_le, le_var. cbn [eval_terms le_terms le_cst]. ring. Qed.
 Lemma eval_le_const k s : eval_le (le_const k) s = k.
-Proof. unfold eval_le, le_const. simpl. lia. Qed.
+Proof. unfold eval_le, le_const. cbn [eval_terms le_terms le_cst]. ring. Qed.
 
 Lemma d_assign_var x g e : d_assign x (le_var g) e = e_set e x (e_at e g).
 Proof. reflexivity. Qed.
+
+(* ------------------------------------------------------- allocation sites and tags *)
+Variable is_refrgn : var -> bool.     (* which regions hold references *)
+Variable is_refv : var -> bool.       (* which variables are references *)
+Variable P : rparams.
+
+(* a finite site set describes an address that is null or belongs to an object allocated at
+   one of the sites *)
+Definition sgamma (c : cstate) (d : dset) (z : Z) : Prop :=
+  match d with
+  | None => True
+  | Some ss => z = 0 \/ exists site, c_asite c z = Some site /\ In site ss
+  end.
+Definition tgamma (d : dset) (l : list Z) : Prop :=
+  match d with None => True | Some T => incl l T end.
+
+Lemma ds_mem_spec z l : ds_mem z l = true <-> In z l.
+Proof.
+  unfold ds_mem. rewrite existsb_exists. split.
+  - intros (x & I & E). apply Z.eqb_eq in E. subst. auto.
+  - intros I. exists z. split; auto. apply Z.eqb_refl.
+Qed.
+
+Lemma sg_join c a b z : sgamma c a z \/ sgamma c b z -> sgamma c (ds_join a b) z.
+Proof.
+  destruct a as [x|], b as [y|]; cbn; auto.
+  intros [[H|(s & A & I)]|[H|(s & A & I)]]; auto; right; exists s; split; auto; apply in_or_app; auto.
+Qed.
+Lemma sg_meet c a b z : sgamma c a z -> sgamma c b z -> sgamma c (ds_meet a b) z.
+Proof.
+  unfold ds_meet. intros H1 H2.
+  destruct (ds_is_bottom a) eqn:B1.
+  { destruct a as [[|? ?]|]; try discriminate. cbn in *. destruct H1 as [H|(s & _ & [])]; auto. }
+  destruct (ds_is_bottom b) eqn:B2.
+  { destruct b as [[|? ?]|]; try discriminate. cbn in *. destruct H2 as [H|(s & _ & [])]; auto. }
+  cbn [orb]. destruct a as [x|], b as [y|]; auto.
+  cbn in *. destruct H1 as [H|(s & A & I)]; auto. destruct H2 as [H|(s' & A' & I')]; auto.
+  right. exists s. split; auto. apply filter_In. split; auto. apply ds_mem_spec. congruence.
+Qed.
+Lemma tg_join a b l : tgamma a l \/ tgamma b l -> tgamma (ds_join a b) l.
+Proof.
+  destruct a as [x|], b as [y|]; cbn; auto.
+  intros [H|H]; [apply incl_appl | apply incl_appr]; auto.
+Qed.
+Lemma tg_meet a b l : tgamma a l -> tgamma b l -> tgamma (ds_meet a b) l.
+Proof.
+  unfold ds_meet. intros H1 H2.
+  destruct (ds_is_bottom a) eqn:B1.
+  { destruct a as [[|? ?]|]; try discriminate. exact H1. }
+  destruct (ds_is_bottom b) eqn:B2.
+  { destruct b as [[|? ?]|]; try discriminate. exact H2. }
+  cbn [orb]. destruct a as [x|], b as [y|]; auto.
+  cbn in *. intros t I. apply filter_In. split; auto. apply ds_mem_spec. auto.
+Qed.
+Lemma tg_nil d : tgamma d []. Proof. destruct d; cbn; auto. intros ? []. Qed.
+Lemma tg_app d l1 l2 : tgamma d l1 -> tgamma d l2 -> tgamma d (l1 ++ l2).
+Proof. destruct d; cbn; auto. apply incl_app. Qed.
+
+Record rel (a : rst) (c : cstate) : Prop := mkRelF {
+  r_core : rel_core a c;
+  r_svar : forall v, is_refv v = true -> sgamma c (r_alloc a v) (c_st c v);
+  r_srgn : forall g, is_refrgn g = true -> forall x z, c_hp c g x = Some z -> sgamma c (r_alloc a g) z;
+  r_soff : p_alloc P = false -> forall v, r_alloc a v = None;
+  r_anull : c_asite c 0 = None;
+  r_tvar : forall v, is_rgn v = false -> tgamma (r_tags a v) (c_vtg c v);
+  r_trgn : forall g, is_rgn g = true -> forall x, tgamma (r_tags a g) (c_htg c g x);
+  r_toff : p_tags P = false -> forall v, r_tags a v = None;
+  r_tuw : forall g x, c_hp c g x = None -> c_htg c g x = []
+}.
+
+Definition relv (v : rval) (c : cstate) : Prop :=
+  match v with None => False | Some a => rel a c end.
+
+(* set_alloc / set_tags keep or establish the claims *)
+Lemma set_alloc_get s v d x :
+  r_alloc (set_alloc P s v d) x = if p_alloc P then (if N.eqb x v then d else r_alloc s x) else r_alloc s x.
+Proof. unfold set_alloc. destruct (p_alloc P); auto. Qed.
+Lemma set_tags_get s v d x :
+  r_tags (set_tags P s v d) x = if p_tags P then (if N.eqb x v then d else r_tags s x) else r_tags s x.
+Proof. unfold set_tags. destruct (p_tags P); auto. Qed.
+Lemma set_alloc_base s v d : r_base (set_alloc P s v d) = r_base s.
+Proof. unfold set_alloc. destruct (p_alloc P); auto. Qed.
+Lemma set_alloc_rgn s v d : r_rgn (set_alloc P s v d) = r_rgn s.
+Proof. unfold set_alloc. destruct (p_alloc P); auto. Qed.
+Lemma set_alloc_tags s v d : r_tags (set_alloc P s v d) = r_tags s.
+Proof. unfold set_alloc. destruct (p_alloc P); auto. Qed.
+Lemma set_tags_base s v d : r_base (set_tags P s v d) = r_base s.
+Proof. unfold set_tags. destruct (p_tags P); auto. Qed.
+Lemma set_tags_rgn s v d : r_rgn (set_tags P s v d) = r_rgn s.
+Proof. unfold set_tags. destruct (p_tags P); auto. Qed.
+Lemma set_tags_alloc s v d : r_alloc (set_tags P s v d) = r_alloc s.
+Proof. unfold set_tags. destruct (p_tags P); auto. Qed.
+
+(* ------------------------------------------------------- concrete operations *)
+Definition sval_val (v : sval) (s : store) : Z := eval_le (sval_exp v) s.
+Definition sval_tags (v : sval) (c : cstate) : list Z :=
+  match v with SVar x _ => c_vtg c x | _ => [] end.
+
+Definition rrel_holds (r : rrel) (a b : Z) : Prop :=
+  match r with REq => a = b | RNe => a <> b | RLe => a <= b | RLt => a < b | RGe => a >= b | RGt => a > b end.
+Definition rcst_holds (rc : rcst) (s : store) : Prop :=
+  match rc with
+  | RUn r p => rrel_holds r (s p) 0
+  | RBin r p q k => rrel_holds r (s p) (s q + k)
+  end.
+
+(* ref2 := ref1 + off.  [lit0]: the offset is the literal 0 *)
+Definition c_gep (p2 g2 p1 g1 : var) (off : Z) (lit0 : bool) (c c' : cstate) : Prop :=
+  let a1 := c_st c p1 in let a2 := a1 + off in
+  (g1 = g2 -> a2 = a1 -> In a1 (addrs c g1) \/ lit0 = true) /\
+  (a1 = 0 -> a2 = 0) /\ c_asite c a2 = c_asite c a1 /\
+  c' = mkCS (upd (c_st c) p2 a2) (c_hp c)
+            (if N.eqb g1 g2 && (a2 =? a1) then c_made c
+             else fupd (c_made c) g2 (c_made c g2 ++ [(Z.of_N p2, a2)]))
+            (c_asite c) (fupd (c_vtg c) p2 (c_vtg c p1)) (c_htg c).
+
+Definition c_havoc_scalar (v : var) (c c' : cstate) : Prop :=
+  exists z tl, c' = mkCS (upd (c_st c) v z) (c_hp c) (c_made c) (c_asite c) (fupd (c_vtg c) v tl) (c_htg c).
+
+Definition c_assume_ref (rc : rcst) (c c' : cstate) : Prop :=
+  rcst_holds rc (c_st c) /\
+  match rc with
+  | RBin REq p q k => k <> 0 -> c_asite c (c_st c p) = c_asite c (c_st c q)
+  | _ => True
+  end /\ c' = c.
+
+Definition c_sel_arm (p g : var) (arm : option (var * var)) (c c' : cstate) : Prop :=
+  match arm with
+  | None => exists c1, c_havoc_scalar p c c1 /\ c_assume_ref (RUn REq p) c1 c'
+  | Some (q, gq) => c_gep p g q gq 0 true c c'
+  end.
+
+Definition lit_zero (e : linexp) : bool :=
+  match le_terms e with [] => le_cst e =? 0 | _ => false end.
+
+(* the concrete meaning of the operations on one state *)
+Definition cstep (o : rop) (c c' : cstate) : Prop :=
+  match o with
+  | OInit _ g =>
+    c' = mkCS (c_st c) (fupd (c_hp c) g (fun _ => None)) (fupd (c_made c) g []) (c_asite c) (c_vtg c)
+              (fupd (c_htg c) g (fun _ => []))
+  | OMk _ p g site =>
+    exists a, a <> 0 /\ c_asite c a = None /\
+      c' = mkCS (upd (c_st c) p a) (c_hp c) (fupd (c_made c) g (c_made c g ++ [(Z.of_N p, a)]))
+                (fun x => if x =? a then Some site else c_asite c x) (fupd (c_vtg c) p []) (c_htg c)
+  | OFree _ g p => c' = c
+  | OLd _ x p g _ =>
+    let a := c_st c p in
+    valid c g a /\ exists z, c_hp c g a = Some z /\
+      c' = mkCS (upd (c_st c) x z) (c_hp c) (c_made c) (c_asite c) (fupd (c_vtg c) x (c_htg c g a)) (c_htg c)
+  | OSt _ p g v =>
+    let a := c_st c p in let z := sval_val v (c_st c) in
+    valid c g a /\
+      c' = mkCS (upd (c_st c) g z) (hupd (c_hp c) g a (Some z)) (c_made c) (c_asite c) (c_vtg c)
+                (hupd (c_htg c) g a (sval_tags v c))
+  | OGep _ p2 g2 p1 g1 off _ => c_gep p2 g2 p1 g1 (eval_le off (c_st c)) (lit_zero off) c c'
+  | ORcopy _ l g =>
+    c' = mkCS (upd (c_st c) l (c_st c g)) (fupd (c_hp c) l (c_hp c g)) (fupd (c_made c) l (c_made c g))
+              (c_asite c) (c_vtg c) (fupd (c_htg c) l (c_htg c g))
+  | OAssumeRef _ rc _ => c_assume_ref rc c c'
+  | OSelRef _ p g a1 a2 _ => c_sel_arm p g a1 c c' \/ c_sel_arm p g a2 c c'
+  | OTag _ g t =>
+    exists a z, c_hp c g a = Some z /\
+      c' = mkCS (c_st c) (c_hp c) (c_made c) (c_asite c) (c_vtg c) (hupd (c_htg c) g a (t :: c_htg c g a))
+  | OAssign _ x e =>
+    c' = mkCS (upd (c_st c) x (eval_le e (c_st c))) (c_hp c) (c_made c) (c_asite c)
+              (fupd (c_vtg c) x (flat_map (fun p => c_vtg c (snd p)) (le_terms e))) (c_htg c)
+  | OArith _ op x y z =>
+    exists r, arith_sem op (c_st c y) (operand_val z (c_st c)) = Some r /\
+      c' = mkCS (upd (c_st c) x r) (c_hp c) (c_made c) (c_asite c)
+                (fupd (c_vtg c) x (c_vtg c y ++ match z with OVar v => c_vtg c v | OCst _ => [] end)) (c_htg c)
+  | OAssume _ cs => (forall k, In k cs -> sat k (c_st c)) /\ c' = c
+  | OHavoc _ v KRegion =>
+    (forall k, k <> v -> c_st c' k = c_st c k) /\ (forall g, g <> v -> c_hp c' g = c_hp c g) /\
+    (forall g, g <> v -> c_made c' g = c_made c g) /\ c_asite c' = c_asite c /\ c_vtg c' = c_vtg c /\
+    (forall g, g <> v -> c_htg c' g = c_htg c g) /\ cwf c' /\ (forall x, c_hp c' v x = None -> c_htg c' v x = [])
+  | OHavoc _ v _ => c_havoc_scalar v c c'
+  | _ => False
+  end.
+
+Hypothesis refrgn_rgn : forall g, is_refrgn g = true -> is_rgn g = true.
+
+Lemma sgamma_mono c c' d z :
+  (forall y s, c_asite c y = Some s -> c_asite c' y = Some s) -> sgamma c d z -> sgamma c' d z.
+Proof.
+  intros E. destruct d as [ss|]; cbn; auto. intros [H|(s & A & I)]; auto. right. exists s. split; auto.
+Qed.
+
+Lemma igamma_hp b c c' g : (forall x, c_hp c' g x = c_hp c g x) -> igamma b c g -> igamma b c' g.
+Proof.
+  intros E. destruct b; cbn; auto.
+  - intros H x. rewrite E. auto.
+  - intros (x & z & H). exists x, z. rewrite E. auto.
+Qed.
+
+(* an update of a non-region variable (and possibly more references created) *)
+Lemma rel_scalar_update a c x z tl E rg' al' tg' made' asite' :
+  rel a c -> is_rgn x = false ->
+  (forall s0, view c s0 -> genv E (upd s0 x z)) ->
+  (forall g, cgamma (fst (rg' g)) (map fst (made' g))) ->
+  (forall g, snd (rg' g) = rinit a g) ->
+  (forall g, incl (addrs c g) (map snd (made' g))) ->
+  (forall y s, c_asite c y = Some s -> asite' y = Some s) -> asite' 0 = None ->
+  (forall v, v <> x -> al' v = r_alloc a v) ->
+  (is_refv x = true ->
+   al' x = None \/ z = 0 \/ exists site ss, al' x = Some ss /\ asite' z = Some site /\ In site ss) ->
+  (forall v, v <> x -> tg' v = r_tags a v) -> tgamma (tg' x) tl ->
+  (p_alloc P = false -> al' x = None) -> (p_tags P = false -> tg' x = None) ->
+  exists m, E = EMap m /\
+    rel (mkR m rg' al' tg')
+        (mkCS (upd (c_st c) x z) (c_hp c) made' asite' (fupd (c_vtg c) x tl) (c_htg c)).
+Proof.
+  intros R Kx HB HC HI HM HA HA0 Hal Hx Htg Htx Poff Toff.
+  set (c' := mkCS (upd (c_st c) x z) (c_hp c) made' asite' (fupd (c_vtg c) x tl) (c_htg c)).
+  assert (B : forall s, view c' s -> genv E s).
+  { apply (lift_scalar c c' x z E); auto. }
+  destruct E as [|m]; [elim (B _ (view_id c'))|]. exists m. split; auto.
+  pose proof (r_core _ _ R) as RC.
+  assert (MONO : forall d y, sgamma c d y -> sgamma c' d y).
+  { intros d y. apply sgamma_mono. exact HA. }
+  unfold c' in *. clear c'.
+  constructor.
+  - constructor; cbn [r_base r_rgn count rinit].
+    + exact B.
+    + intros g. apply HC.
+    + intros g. unfold rinit. cbn [r_rgn]. rewrite HI. apply (igamma_hp _ c); auto. apply (rc_init _ _ RC).
+    + intros g y w Hw. cbn in Hw. apply HM. apply (rc_wf _ _ RC g y w Hw).
+  - intros v Kv. cbn [r_alloc c_st]. destruct (N.eq_dec v x) as [->|N].
+    + rewrite upd_same. destruct (Hx Kv) as [H|[H|(site & ss & H1 & H2 & H3)]].
+      * rewrite H. exact I.
+      * subst. destruct (al' x); cbn; auto.
+      * rewrite H1. right. exists site. split; auto.
+    + rewrite upd_other by auto. rewrite Hal by auto. apply MONO. apply (r_svar _ _ R); auto.
+  - intros g Kg y w Hw. cbn [r_alloc]. cbn in Hw.
+    assert (N : g <> x). { intros ->. apply refrgn_rgn in Kg. congruence. }
+    rewrite Hal by auto. apply MONO. eapply (r_srgn _ _ R); eauto.
+  - intros Off v. cbn [r_alloc]. destruct (N.eq_dec v x) as [->|N]; auto.
+    rewrite Hal by auto. apply (r_soff _ _ R); auto.
+  - exact HA0.
+  - intros v Kv. cbn [r_tags c_vtg]. destruct (N.eq_dec v x) as [->|N].
+    + rewrite fupd_same. auto.
+    + rewrite fupd_other by auto. rewrite Htg by auto. apply (r_tvar _ _ R); auto.
+  - intros g Kg y. cbn [r_tags c_htg].
+    assert (N : g <> x) by (intros ->; congruence).
+    rewrite Htg by auto. apply (r_trgn _ _ R); auto.
+  - intros Off v. cbn [r_tags]. destruct (N.eq_dec v x) as [->|N]; auto.
+    rewrite Htg by auto. apply (r_toff _ _ R); auto.
+  - intros g y Hy. cbn in *. apply (r_tuw _ _ R); auto.
+Qed.
+
+Lemma relv_some E m s c : E = EMap m -> rel (mkR m (r_rgn s) (r_alloc s) (r_tags s)) c -> relv (with_base s E) c.
+Proof. intros -> R. exact R. Qed.
+
+Lemma creators_app c g l : map fst (c_made c g ++ l) = creators c g ++ map fst l.
+Proof. apply map_app. Qed.
+
+(* ---- ref_make ---- *)
+Lemma t_mk_sound a c c' r p g site :
+  rel a c -> is_rgn p = false -> cstep (OMk r p g site) c c' -> relv (t_mk P p g site a) c'.
+Proof.
+  intros R Kp (a0 & A0 & AS & ->). unfold t_mk.
+  set (s1 := set_rgn a g (rc_incr (count a g) p, rinit a g)).
+  set (s2 := set_alloc P s1 p (Some [site])).
+  assert (EB : r_base s2 = r_base a) by (unfold s2; rewrite set_alloc_base; reflexivity).
+  rewrite EB.
+  destruct (rel_scalar_update a c p a0 [] (e_forget (EMap (r_base a)) p) (r_rgn s2) (r_alloc s2) (r_tags s2)
+              (fupd (c_made c) g (c_made c g ++ [(Z.of_N p, a0)]))
+              (fun x => if x =? a0 then Some site else c_asite c x)) as (m & Em & Rm); auto.
+  - intros s0 V. apply e_forget_sound. apply (rc_base _ _ (r_core _ _ R)); auto.
+  - intros g'. unfold s2. rewrite set_alloc_rgn. cbn [s1 set_rgn r_rgn].
+    destruct (N.eq_dec g' g) as [->|N].
+    + rewrite !fupd_same. cbn [fst]. rewrite creators_app. apply cg_incr. apply (rc_count _ _ (r_core _ _ R)).
+    + rewrite !fupd_other by auto. apply (rc_count _ _ (r_core _ _ R)).
+  - intros g'. unfold s2. rewrite set_alloc_rgn. cbn [s1 set_rgn r_rgn].
+    destruct (N.eq_dec g' g) as [->|N]; [rewrite fupd_same | rewrite fupd_other by auto]; reflexivity.
+  - intros g'. unfold addrs. destruct (N.eq_dec g' g) as [->|N].
+    + rewrite fupd_same. rewrite map_app. apply incl_appl. apply incl_refl.
+    + rewrite fupd_other by auto. apply incl_refl.
+  - intros y s E. destruct (Z.eqb_spec y a0); [congruence|auto].
+  - destruct (Z.eqb_spec 0 a0); [congruence|]. apply (r_anull _ _ R).
+  - intros v N. unfold s2. rewrite set_alloc_get. destruct (p_alloc P); auto.
+    destruct (N.eqb_spec v p); [congruence|reflexivity].
+  - intros _. unfold s2. rewrite set_alloc_get. destruct (p_alloc P) eqn:PA.
+    + rewrite N.eqb_refl. right. right. exists site, [site]. repeat split; auto.
+      * rewrite Z.eqb_refl. auto.
+      * left; auto.
+    + left. apply (r_soff _ _ R); auto.
+  - intros v N. unfold s2. rewrite set_alloc_tags. reflexivity.
+  - apply tg_nil.
+  - intros Off. unfold s2. rewrite set_alloc_get, Off. apply (r_soff _ _ R); auto.
+  - intros Off. unfold s2. rewrite set_alloc_tags. apply (r_toff _ _ R); auto.
+  - eapply relv_some; eauto.
+Qed.
+
+(* ---- assign / arithmetic / havoc of a scalar or reference ---- *)
+Lemma merge_tags_sound a c vs :
+  rel a c -> (forall v, In v vs -> is_rgn v = false) ->
+  tgamma (merge_tags a vs) (flat_map (fun v => c_vtg c v) vs).
+Proof.
+  intros R. unfold merge_tags.
+  assert (G : forall vs acc l, tgamma acc l -> (forall v, In v vs -> is_rgn v = false) ->
+              tgamma (fold_left (fun acc v => ds_join acc (r_tags a v)) vs acc) (l ++ flat_map (fun v => c_vtg c v) vs)).
+  { induction vs0 as [|v r IH]; simpl; intros acc l T K.
+    - rewrite app_nil_r. auto.
+    - rewrite app_assoc. apply IH; auto.
+      destruct (ds_join acc (r_tags a v)) eqn:J; [|exact I].
+      destruct acc as [x|]; [|discriminate]. destruct (r_tags a v) as [y|] eqn:Tv; [|discriminate].
+      cbn in J. inversion J; subst. cbn. apply incl_app.
+      + apply incl_appl. exact T.
+      + apply incl_appr. pose proof (r_tvar _ _ R v (K v (or_introl eq_refl))) as X. rewrite Tv in X. exact X. }
+  intros K. apply (G vs ds_empty []); auto. cbn. intros ? [].
+Qed.
+
+Lemma flat_map_terms {A} (f : var -> list A) (ts : list (Z * var)) :
+  flat_map (fun p => f (snd p)) ts = flat_map f (map snd ts).
+Proof. induction ts as [|[c v] r IH]; simpl; auto. rewrite IH. auto. Qed.
+
+Lemma t_assign_sound a c c' r x e :
+  rel a c -> is_rgn x = false -> is_refv x = false -> nonrgn_exp e ->
+  cstep (OAssign r x e) c c' -> relv (t_assign P x e a) c'.
+Proof.
+  intros R Kx Kr Ne ->. unfold t_assign.
+  set (tg := merge_tags a (map snd (le_terms e))).
+  destruct (rel_scalar_update a c x (eval_le e (c_st c)) (flat_map (fun p => c_vtg c (snd p)) (le_terms e))
+              (d_assign x e (EMap (r_base a))) (r_rgn (set_tags P a x tg)) (r_alloc (set_tags P a x tg))
+              (r_tags (set_tags P a x tg)) (c_made c) (c_asite c)) as (m & Em & Rm); auto.
+  - intros s0 V. rewrite <- (eval_view e c s0 Ne V). apply d_assign_sound.
+    apply (rc_base _ _ (r_core _ _ R)); auto.
+  - intros g. rewrite set_tags_rgn. apply (rc_count _ _ (r_core _ _ R)).
+  - intros g. rewrite set_tags_rgn. reflexivity.
+  - intros g. apply incl_refl.
+  - apply (r_anull _ _ R).
+  - intros v N. rewrite set_tags_alloc. reflexivity.
+  - congruence.
+  - intros v N. rewrite set_tags_get. destruct (p_tags P); auto.
+    destruct (N.eqb_spec v x); [congruence|auto].
+  - rewrite set_tags_get. destruct (p_tags P) eqn:PT.
+    + rewrite N.eqb_refl. rewrite flat_map_terms. apply merge_tags_sound; auto.
+      intros v I. apply in_map_iff in I. destruct I as ([co w] & <- & I). eapply Ne; eauto.
+    + rewrite (r_toff _ _ R PT). exact I.
+  - intros Off. rewrite set_tags_alloc. apply (r_soff _ _ R); auto.
+  - intros Off. rewrite set_tags_get, Off. apply (r_toff _ _ R); auto.
+  - eapply relv_some; eauto.
+Qed.
+
+Ltac rcore R := pose proof (r_core _ _ R) as RC.
+
+Lemma t_arith_sound a c c' r op x y z :
+  rel a c -> is_rgn x = false -> is_refv x = false -> is_rgn y = false ->
+  (forall v, z = OVar v -> is_rgn v = false) ->
+  cstep (OArith r op x y z) c c' -> relv (t_arith P op x y z a) c'.
+Proof.
+  intros R Kx Kr Ky Kz (res & Sem & ->). unfold t_arith.
+  set (tg := match z with OVar v => ds_join (r_tags a y) (r_tags a v) | OCst _ => r_tags a y end).
+  destruct (rel_scalar_update a c x res (c_vtg c y ++ match z with OVar v => c_vtg c v | OCst _ => [] end)
+              (d_apply_arith op x y z (EMap (r_base a))) (r_rgn (set_tags P a x tg)) (r_alloc (set_tags P a x tg))
+              (r_tags (set_tags P a x tg)) (c_made c) (c_asite c)) as (m & Em & Rm); auto.
+  - intros s0 V. eapply d_apply_arith_sound. apply (rc_base _ _ (r_core _ _ R)); auto.
+    destruct V as [V1 V2]. rewrite (V1 y Ky).
+    replace (operand_val z s0) with (operand_val z (c_st c)); auto.
+    destruct z; simpl; auto. symmetry. apply V1. eapply Kz; eauto.
+  - intros g. rewrite set_tags_rgn. apply (rc_count _ _ (r_core _ _ R)).
+  - intros g. rewrite set_tags_rgn. reflexivity.
+  - intros g. apply incl_refl.
+  - apply (r_anull _ _ R).
+  - intros v N. rewrite set_tags_alloc. reflexivity.
+  - congruence.
+  - intros v N. rewrite set_tags_get. destruct (p_tags P); auto.
+    destruct (N.eqb_spec v x); [congruence|auto].
+  - rewrite set_tags_get. destruct (p_tags P) eqn:PT.
+    + rewrite N.eqb_refl. unfold tg. destruct z as [v|k].
+      * apply tg_app; apply tg_join; [left|right]; apply (r_tvar _ _ R); auto; try (eapply Kz; eauto).
+      * rewrite app_nil_r. apply (r_tvar _ _ R); auto.
+    + rewrite (r_toff _ _ R PT). exact I.
+  - intros Off. rewrite set_tags_alloc. apply (r_soff _ _ R); auto.
+  - intros Off. rewrite set_tags_get, Off. apply (r_toff _ _ R); auto.
+  - eapply relv_some; eauto.
+Qed.
+
+Lemma t_havoc_scalar_sound a c c' v k :
+  rel a c -> is_rgn v = false -> k <> KRegion -> (is_refv v = true -> k = KRef) ->
+  c_havoc_scalar v c c' -> relv (t_havoc P v k a) c'.
+Proof.
+  intros R Kv Kk Kr (z & tl & ->). unfold t_havoc.
+  set (s1 := match k with KRegion => set_rgn a v ri_top | _ => a end).
+  assert (E1 : s1 = a) by (unfold s1; destruct k; auto; congruence).
+  rewrite E1. clear s1 E1.
+  set (s2 := match k with KScalar => a | _ => set_alloc P a v ds_top end).
+  set (s3 := set_tags P s2 v ds_top).
+  assert (EB : r_base s3 = r_base a).
+  { unfold s3, s2. rewrite set_tags_base. destruct k; auto; apply set_alloc_base. }
+  assert (ER : r_rgn s3 = r_rgn a).
+  { unfold s3, s2. rewrite set_tags_rgn. destruct k; auto; apply set_alloc_rgn. }
+  rewrite EB.
+  destruct (rel_scalar_update a c v z tl (e_forget (EMap (r_base a)) v) (r_rgn s3) (r_alloc s3) (r_tags s3)
+              (c_made c) (c_asite c)) as (m & Em & Rm); auto.
+  - intros s0 V. apply e_forget_sound. apply (rc_base _ _ (r_core _ _ R)); auto.
+  - intros g. rewrite ER. apply (rc_count _ _ (r_core _ _ R)).
+  - intros g. rewrite ER. reflexivity.
+  - intros g. apply incl_refl.
+  - apply (r_anull _ _ R).
+  - intros w N. unfold s3, s2. rewrite set_tags_alloc. destruct k; auto; rewrite set_alloc_get;
+      destruct (p_alloc P); auto; destruct (N.eqb_spec w v); congruence.
+  - intros Rv. left. unfold s3, s2. rewrite (Kr Rv). rewrite set_tags_alloc, set_alloc_get.
+    destruct (p_alloc P) eqn:PA; [rewrite N.eqb_refl; reflexivity | apply (r_soff _ _ R); auto].
+  - intros w N. unfold s3. rewrite set_tags_get. destruct (p_tags P).
+    + destruct (N.eqb_spec w v); [congruence|]. unfold s2. destruct k; auto; rewrite set_alloc_tags; auto.
+    + unfold s2. destruct k; auto; rewrite set_alloc_tags; auto.
+  - unfold s3. rewrite set_tags_get. destruct (p_tags P) eqn:PT.
+    + rewrite N.eqb_refl. exact I.
+    + assert (X : r_tags s2 v = None); [|rewrite X; exact I].
+      unfold s2. destruct k; try rewrite set_alloc_tags; apply (r_toff _ _ R); auto.
+  - intros Off. unfold s3, s2. rewrite set_tags_alloc.
+    destruct k; try rewrite set_alloc_get, Off; apply (r_soff _ _ R); auto.
+  - intros Off. unfold s3. rewrite set_tags_get, Off. unfold s2.
+    destruct k; try rewrite set_alloc_tags; apply (r_toff _ _ R); auto.
+  - eapply relv_some; eauto.
+Qed.
+
+(* ---- ref_load ---- *)
+Lemma t_load_sound a c c' r dup x p g isr :
+  rel a c -> is_rgn x = false -> is_rgn p = false -> is_rgn g = true ->
+  is_rgn dup = false -> dup <> x -> (isr = true -> is_refrgn g = true) -> (is_refv x = true -> isr = true) ->
+  cstep (OLd r x p g isr) c c' -> relv (t_load P dup x p g isr a) c'.
+Proof.
+  intros R Kx Kp Kg Kd Dx Kri Krv ((A0 & AI) & z & Hz & ->). unfold t_load. rcore R.
+  destruct (bv_is_true (is_null (r_base a) p)) eqn:NL.
+  { assert (X : is_null (r_base a) p = BTrue) by (destruct (is_null (r_base a) p); try discriminate; auto).
+    elim A0. eapply is_null_true; eauto. }
+  set (s1 := if isr then set_alloc P a x (r_alloc a g) else a).
+  set (s2 := set_tags P s1 x (r_tags s1 g)).
+  assert (EB : r_base s2 = r_base a).
+  { unfold s2, s1. rewrite set_tags_base. destruct isr; auto. apply set_alloc_base. }
+  assert (ER : r_rgn s2 = r_rgn a).
+  { unfold s2, s1. rewrite set_tags_rgn. destruct isr; auto. apply set_alloc_rgn. }
+  assert (ET : r_tags s1 = r_tags a).
+  { unfold s1. destruct isr; auto. apply set_alloc_tags. }
+  rewrite EB. unfold count. rewrite ER.
+  (* the value z is described by the contents of the region *)
+  assert (GZ : forall s0, view c s0 -> gamma (get (r_base a) g) z).
+  { intros s0 [V1 V2].
+    assert (V' : view c (upd s0 g z)).
+    { split.
+      - intros k Kk. rewrite upd_other by (intros ->; congruence). auto.
+      - intros q Kq. destruct (N.eq_dec q g) as [->|N].
+        + rewrite upd_same. right. eauto.
+        + rewrite upd_other by auto. auto. }
+    pose proof (rc_base _ _ RC _ V' g) as G. rewrite upd_same in G. exact G. }
+  assert (FIN : forall E, (forall s0, view c s0 -> genv E (upd s0 x z)) -> relv (with_base s2 E)
+                 (mkCS (upd (c_st c) x z) (c_hp c) (c_made c) (c_asite c) (fupd (c_vtg c) x (c_htg c g (c_st c p))) (c_htg c))).
+  { intros E HE.
+    destruct (rel_scalar_update a c x z (c_htg c g (c_st c p)) E (r_rgn s2) (r_alloc s2) (r_tags s2)
+                (c_made c) (c_asite c)) as (m & Em & Rm); auto.
+    - intros g'. rewrite ER. apply (rc_count _ _ RC).
+    - intros g'. rewrite ER. reflexivity.
+    - intros g'. apply incl_refl.
+    - apply (r_anull _ _ R).
+    - intros v N. unfold s2, s1. rewrite set_tags_alloc. destruct isr; auto.
+      rewrite set_alloc_get. destruct (p_alloc P); auto. destruct (N.eqb_spec v x); congruence.
+    - intros Rv. pose proof (Krv Rv) as Ei. unfold s2, s1. rewrite Ei in *. cbv iota. rewrite set_tags_alloc, set_alloc_get.
+      destruct (p_alloc P) eqn:PA; [rewrite N.eqb_refl | left; apply (r_soff _ _ R); auto].
+      pose proof (r_srgn _ _ R g (Kri eq_refl) _ _ Hz) as X.
+      destruct (r_alloc a g) as [ss|]; auto. cbn in X. destruct X as [X|(site & X1 & X2)]; auto.
+      right. right. exists site, ss. auto.
+    - intros v N. unfold s2. rewrite set_tags_get. destruct (p_tags P); [|rewrite ET; auto].
+      destruct (N.eqb_spec v x); [congruence|]. rewrite ET; auto.
+    - unfold s2. rewrite set_tags_get. destruct (p_tags P) eqn:PT.
+      + rewrite N.eqb_refl, ET. apply (r_trgn _ _ R); auto.
+      + rewrite ET, (r_toff _ _ R PT). exact I.
+    - intros Off. unfold s2, s1. rewrite set_tags_alloc. destruct isr; [rewrite set_alloc_get, Off|];
+        apply (r_soff _ _ R); auto.
+    - intros Off. unfold s2. rewrite set_tags_get, Off, ET. apply (r_toff _ _ R); auto.
+    - eapply relv_some; eauto. }
+  destruct (singleton_count (fst (r_rgn a g))).
+  - (* strong read *)
+    apply FIN. intros s0 V. rewrite d_assign_var. apply e_set_sound.
+    + apply (rc_base _ _ RC); auto.
+    + cbn [e_at]. eapply GZ; eauto.
+  - (* weak read through the duplicated ghost variable *)
+    apply FIN. intros s0 V.
+    assert (G0 : genv (EMap (r_base a)) s0) by (apply (rc_base _ _ RC); auto).
+    assert (G1 : genv (d_expand g dup (EMap (r_base a))) (upd s0 dup z)).
+    { apply d_expand_sound; auto. exists (upd s0 g z). split; [|split].
+      - destruct V as [V1 V2]. apply (rc_base _ _ RC). split.
+        + intros k Kk. rewrite upd_other by (intros ->; congruence). auto.
+        + intros q Kq. destruct (N.eq_dec q g) as [->|N].
+          * rewrite upd_same. right. eauto.
+          * rewrite upd_other by auto. auto.
+      - intros k N. apply upd_other; auto.
+      - rewrite upd_same. auto. }
+    pose proof (d_assign_sound x (le_var dup) _ _ G1) as G2.
+    rewrite eval_le_var, upd_same in G2.
+    pose proof (e_forget_sound _ _ dup (s0 dup) G2) as G3.
+    eapply genv_ext; [|exact G3]. intros k.
+    destruct (N.eq_dec k dup) as [->|N1]; [rewrite upd_same, upd_other by auto; auto|].
+    rewrite upd_other by auto.
+    destruct (N.eq_dec k x) as [->|N2]; [rewrite !upd_same; auto|].
+    rewrite !upd_other by auto. auto.
+Qed.
+
+(* ---- ref_gep ---- *)
+Lemma is_zero_itv_gamma i v : is_zero_itv i = true -> gamma i v -> v = 0.
+Proof.
+  unfold is_zero_itv. destruct i as [l u]; simpl.
+  destruct l as [|l|]; try discriminate. destruct l; try discriminate.
+  destruct u as [|u|]; try discriminate. destruct u; try discriminate.
+  intros _ G. unfold gamma in G. simpl in G. unfold ble_z_l, ble_z_r in G. simpl in G.
+  destruct G as [G1 G2]. apply Z.leb_le in G1, G2. lia.
+Qed.
+
+Lemma lit_zero_eval off e : lit_zero off = true -> is_zero_itv (d_eval off e) = true.
+Proof.
+  unfold lit_zero, d_eval. destruct (le_terms off); [|discriminate]. intros E.
+  apply Z.eqb_eq in E. rewrite E. reflexivity.
+Qed.
+Lemma lit_zero_val off s : lit_zero off = true -> eval_le off s = 0.
+Proof.
+  unfold lit_zero, eval_le. destruct (le_terms off); [|discriminate]. intros E.
+  apply Z.eqb_eq in E. rewrite E. reflexivity.
+Qed.
+
+Lemma t_gep_sound a c c' p2 g2 p1 g1 off addr :
+  rel a c -> is_rgn p2 = false -> is_rgn p1 = false ->
+  nonrgn_exp off -> nonrgn_exp addr -> ~ In p2 (map snd (le_terms off)) ->
+  (forall s, eval_le addr s = s p1 + eval_le off s) ->
+  (is_refv p2 = true -> is_refv p1 = true) ->
+  c_gep p2 g2 p1 g1 (eval_le off (c_st c)) (lit_zero off) c c' ->
+  relv (t_gep P p2 g2 p1 g1 off addr a) c'.
+Proof.
+  intros R K2 K1 No Na Np Ea Krv (SRC & NUL & AS & ->). unfold t_gep. rcore R.
+  set (a1 := c_st c p1) in *. set (ov := eval_le off (c_st c)) in *.
+  set (b' := d_assign p2 addr (EMap (r_base a))).
+  assert (GB : forall s0, view c s0 -> genv b' (upd s0 p2 (a1 + ov))).
+  { intros s0 V. unfold b'. replace (a1 + ov) with (eval_le addr s0).
+    - apply d_assign_sound. apply (rc_base _ _ RC); auto.
+    - rewrite (eval_view addr c s0 Na V). rewrite Ea. reflexivity. }
+  set (same := N.eqb g1 g2 && is_zero_itv (d_eval off b')).
+  assert (SAME : same = true -> g1 = g2 /\ ov = 0).
+  { unfold same. intros E. apply andb_true_iff in E. destruct E as [E1 E2]. split.
+    - apply N.eqb_eq; auto.
+    - pose proof (GB _ (view_id c)) as G.
+      pose proof (d_eval_sound off b' _ G) as D.
+      eapply is_zero_itv_gamma in D; eauto. rewrite <- D. unfold ov, eval_le. f_equal.
+      apply eval_terms_agree. intros co v I. symmetry. apply upd_other.
+      intros ->. apply Np. apply in_map_iff. exists (co, p2). auto. }
+  set (s1 := if same then a else set_rgn a g2 (rc_incr (count a g2) p2, rinit a g2)).
+  set (s2 := set_alloc P s1 p2 (r_alloc s1 p1)).
+  set (s3 := set_tags P s2 p2 (r_tags s2 p1)).
+  assert (EA : r_alloc s1 = r_alloc a) by (unfold s1; destruct same; reflexivity).
+  assert (ET : r_tags s1 = r_tags a) by (unfold s1; destruct same; reflexivity).
+  assert (ER : r_rgn s3 = r_rgn s1) by (unfold s3, s2; rewrite set_tags_rgn, set_alloc_rgn; reflexivity).
+  assert (ET2 : r_tags s2 = r_tags a) by (unfold s2; rewrite set_alloc_tags; exact ET).
+  destruct (rel_scalar_update a c p2 (a1 + ov) (c_vtg c p1) b' (r_rgn s3) (r_alloc s3) (r_tags s3)
+              (if N.eqb g1 g2 && (a1 + ov =? a1) then c_made c
+               else fupd (c_made c) g2 (c_made c g2 ++ [(Z.of_N p2, a1 + ov)])) (c_asite c))
+    as (m & Em & Rm); auto.
+  - intros g. rewrite ER. unfold s1. destruct same eqn:SM.
+    + destruct (SAME eq_refl) as [-> ->]. rewrite N.eqb_refl. replace (a1 + 0 =? a1) with true.
+      * cbn [andb]. apply (rc_count _ _ RC).
+      * symmetry. apply Z.eqb_eq. lia.
+    + cbn [set_rgn r_rgn]. destruct (N.eqb g1 g2 && (a1 + ov =? a1)) eqn:CC.
+      * apply andb_true_iff in CC. destruct CC as [C1 C2]. apply N.eqb_eq in C1. apply Z.eqb_eq in C2.
+        destruct (N.eq_dec g g2) as [->|N]; [|rewrite fupd_other by auto; apply (rc_count _ _ RC)].
+        rewrite fupd_same. cbn [fst]. apply cg_incr_phantom. apply (rc_count _ _ RC).
+        destruct (SRC C1 C2) as [I|L].
+        -- subst g1. unfold creators, addrs in *. destruct (c_made c g2); [elim I|simpl; congruence].
+        -- exfalso. unfold same in SM. rewrite C1, N.eqb_refl, (lit_zero_eval off b' L) in SM. discriminate.
+      * destruct (N.eq_dec g g2) as [->|N].
+        -- rewrite !fupd_same. cbn [fst]. rewrite map_app. apply cg_incr. apply (rc_count _ _ RC).
+        -- rewrite !fupd_other by auto. apply (rc_count _ _ RC).
+  - intros g. rewrite ER. unfold s1. destruct same; auto. cbn [set_rgn r_rgn].
+    destruct (N.eq_dec g g2) as [->|N]; [rewrite fupd_same | rewrite fupd_other by auto]; reflexivity.
+  - intros g. unfold addrs. destruct (N.eqb g1 g2 && (a1 + ov =? a1)); [apply incl_refl|].
+    destruct (N.eq_dec g g2) as [->|N].
+    + rewrite fupd_same, map_app. apply incl_appl, incl_refl.
+    + rewrite fupd_other by auto. apply incl_refl.
+  - apply (r_anull _ _ R).
+  - intros v N. unfold s3, s2. rewrite set_tags_alloc, set_alloc_get, EA. destruct (p_alloc P); auto.
+    destruct (N.eqb_spec v p2); congruence.
+  - intros Rv. unfold s3, s2. rewrite set_tags_alloc, set_alloc_get, EA.
+    destruct (p_alloc P) eqn:PA; [rewrite N.eqb_refl | left; apply (r_soff _ _ R); auto].
+    pose proof (r_svar _ _ R p1 (Krv Rv)) as X. fold a1 in X.
+    destruct (r_alloc a p1) as [ss|]; auto. cbn in X. destruct X as [X|(site & X1 & X2)].
+    + right. left. apply NUL. exact X.
+    + right. right. exists site, ss. repeat split; auto. rewrite AS. exact X1.
+  - intros v N. unfold s3. rewrite set_tags_get, ET2.
+    destruct (p_tags P); auto. destruct (N.eqb_spec v p2); congruence.
+  - unfold s3. rewrite set_tags_get, ET2. destruct (p_tags P) eqn:PT.
+    + rewrite N.eqb_refl. apply (r_tvar _ _ R); auto.
+    + rewrite (r_toff _ _ R PT). exact I.
+  - intros Off. unfold s3, s2. rewrite set_tags_alloc, set_alloc_get, Off, EA. apply (r_soff _ _ R); auto.
+  - intros Off. unfold s3. rewrite set_tags_get, Off, ET2. apply (r_toff _ _ R); auto.
+  - eapply relv_some; eauto.
+Qed.
+
+Hypothesis refv_nonrgn : forall v, is_refv v = true -> is_rgn v = false.
+
+Lemma sgamma_zero c d : sgamma c d 0.
+Proof. destruct d; cbn; auto. Qed.
+
+(* ---- ref_store ---- *)
+Definition sval_ok (g : var) (v : sval) : Prop :=
+  match v with
+  | SVar x isr => is_rgn x = false /\ (is_refrgn g = true -> isr = true /\ is_refv x = true)
+  | SCst _ => is_refrgn g = false
+  | SNull => True
+  end.
+
+Lemma sval_val_view v g c s0 : sval_ok g v -> view c s0 -> eval_le (sval_exp v) s0 = sval_val v (c_st c).
+Proof.
+  intros OK V. unfold sval_val. apply eval_view; auto.
+  destruct v; cbn; intros co w I; try contradiction.
+  destruct I as [I|[]]. inversion I; subst. apply OK.
+Qed.
+
+Lemma t_store_sound a c c' r p g v :
+  rel a c -> is_rgn p = false -> is_rgn g = true -> sval_ok g v ->
+  cstep (OSt r p g v) c c' -> relv (t_store P p g v a) c'.
+Proof.
+  intros R Kp Kg OK ((A0 & AI) & ->). unfold t_store. rcore R.
+  destruct (bv_is_true (is_null (r_base a) p)) eqn:NL.
+  { assert (X : is_null (r_base a) p = BTrue) by (destruct (is_null (r_base a) p); try discriminate; auto).
+    elim A0. eapply is_null_true; eauto. }
+  set (a0 := c_st c p) in *. set (z := sval_val v (c_st c)).
+  set (cnt := count a g). set (strong := bv_is_false (rinit a g) || singleton_count cnt).
+  (* a strong update happens only when a0 is the only cell that may have been written *)
+  assert (EXCL : strong = true -> forall x w, c_hp c g x = Some w -> x = a0).
+  { unfold strong. intros S x w Hx. apply orb_true_iff in S. destruct S as [S|S].
+    - pose proof (rc_init _ _ RC g) as Ig. destruct (rinit a g); try discriminate. cbn in Ig.
+      rewrite Ig in Hx. discriminate.
+    - pose proof (cg_singleton _ _ S (rc_count _ _ RC g)) as SG.
+      pose proof (rc_wf _ _ RC g x w Hx) as Ix. unfold creators, addrs in *.
+      destruct (c_made c g) as [|[v1 x1] [|? ?]]; simpl in *.
+      + contradiction.
+      + destruct AI as [<-|[]]. destruct Ix as [<-|[]]. reflexivity.
+      + destruct SG as [SG|(w0 & SG)]; discriminate. }
+  set (c' := mkCS (upd (c_st c) g z) (hupd (c_hp c) g a0 (Some z)) (c_made c) (c_asite c) (c_vtg c)
+                  (hupd (c_htg c) g a0 (sval_tags v c))).
+  (* views of the new state *)
+  assert (VW : forall s, view c' s ->
+            view c (upd s g (c_st c g)) /\ (s g = z \/ (exists x, x <> a0 /\ c_hp c g x = Some (s g)))).
+  { intros s [V1 V2]. split.
+    - split.
+      + intros k Kk. assert (N : k <> g) by (intros ->; congruence).
+        rewrite upd_other by auto. rewrite (V1 k Kk). cbn. apply upd_other; auto.
+      + intros q Kq. destruct (N.eq_dec q g) as [->|N].
+        * left. apply upd_same.
+        * rewrite upd_other by auto. destruct (V2 q Kq) as [E|(x & E)].
+          -- left. rewrite E. cbn. apply upd_other; auto.
+          -- right. exists x. cbn in E. rewrite hupd_other_rgn in E by auto. auto.
+    - destruct (V2 g Kg) as [E|(x & E)].
+      + left. rewrite E. cbn. apply upd_same.
+      + cbn in E. destruct (Z.eq_dec x a0) as [->|N].
+        * rewrite hupd_same in E. left. congruence.
+        * rewrite hupd_other_addr in E by auto. right. eauto. }
+  set (b := EMap (r_base a)).
+  assert (EV : forall s0, view c s0 -> eval_le (sval_exp v) s0 = z).
+  { intros s0 V. eapply sval_val_view; eauto. }
+  (* the abstract state of everything but the base domain after the store *)
+  set (sS := let s1 := match v with
+                       | SNull => set_alloc P a g ds_empty
+                       | SVar x true => set_alloc P a g (r_alloc a x)
+                       | _ => a
+                       end in
+             match v with SVar x _ => set_tags P s1 g (r_tags s1 x) | _ => s1 end).
+  set (sW := let s1 := match v with
+                       | SVar x true => set_alloc P a g (ds_join (r_alloc a g) (r_alloc a x))
+                       | _ => a
+                       end in
+             match v with
+             | SVar x _ => set_tags P s1 g (ds_join (r_tags s1 g) (r_tags s1 x))
+             | _ => s1
+             end).
+  set (res := if strong then (sS, d_assign g (sval_exp v) b) else (sW, d_weak_assign g (sval_exp v) b)).
+  change (relv (with_base (set_rgn (fst res) g (cnt, BTop)) (snd res)) c').
+  assert (SB : r_base sS = r_base a /\ r_rgn sS = r_rgn a /\ r_base sW = r_base a /\ r_rgn sW = r_rgn a).
+  { unfold sS, sW. destruct v as [x [|]| |]; cbn zeta;
+      rewrite ?set_tags_base, ?set_tags_rgn, ?set_alloc_base, ?set_alloc_rgn; auto. }
+  destruct SB as (SB1 & SR1 & SB2 & SR2).
+  (* base domain *)
+  assert (GB : forall s, view c' s -> genv (snd res) s).
+  { intros s V. destruct (VW s V) as [V0 HS]. pose proof (rc_base _ _ RC _ V0) as G0.
+    unfold res. destruct strong eqn:ST; cbn [snd].
+    - assert (E : s g = z).
+      { destruct HS as [E|(x & N & E)]; auto. elim N. eapply EXCL; eauto. }
+      eapply genv_ext; [|apply (d_assign_sound g (sval_exp v) b _ G0)].
+      intros k. rewrite (EV _ V0). destruct (N.eq_dec k g) as [->|N].
+      + rewrite upd_same. auto.
+      + rewrite !upd_other by auto. auto.
+    - destruct (d_weak_assign_sound g (sval_exp v) b _ G0) as [W1 W2].
+      destruct HS as [E|(x & N & E)].
+      + eapply genv_ext; [|exact W2]. intros k. rewrite (EV _ V0).
+        destruct (N.eq_dec k g) as [->|N]; [rewrite upd_same; auto | rewrite !upd_other by auto; auto].
+      + (* the old cell x keeps its value: s is also a view of the old state *)
+        assert (Vs : view c s).
+        { destruct V0 as [U1 U2]. split.
+          - intros k Kk. rewrite <- (U1 k Kk). symmetry. apply upd_other. intros ->; congruence.
+          - intros q Kq. destruct (N.eq_dec q g) as [->|Nq]; [right; eauto|].
+            specialize (U2 q Kq). rewrite upd_other in U2 by auto. auto. }
+        destruct (d_weak_assign_sound g (sval_exp v) b _ (rc_base _ _ RC _ Vs)) as [W3 _]. exact W3. }
+  destruct (snd res) as [|m] eqn:ES; [elim (GB _ (view_id c'))|].
+  cbn [with_base relv].
+  assert (RG : r_rgn (fst res) = r_rgn a) by (unfold res; destruct strong; cbn [fst]; auto).
+  assert (HPO : forall g' x, g' <> g -> c_hp c' g' x = c_hp c g' x).
+  { intros. cbn. apply hupd_other_rgn; auto. }
+  assert (ALO : forall w, w <> g -> r_alloc (fst res) w = r_alloc a w).
+  { intros w N. unfold res, sS, sW. destruct strong, v as [x0 [|]| |]; cbn [fst];
+      rewrite ?set_tags_alloc, ?set_alloc_get; auto; destruct (p_alloc P); auto;
+      destruct (N.eqb_spec w g); congruence. }
+  assert (ALOFF : p_alloc P = false -> forall w, r_alloc (fst res) w = r_alloc a w).
+  { intros Off w. unfold res, sS, sW. destruct strong, v as [x0 [|]| |]; cbn [fst];
+      rewrite ?set_tags_alloc, ?set_alloc_get, ?Off; auto. }
+  assert (TGO : forall w, w <> g -> r_tags (fst res) w = r_tags a w).
+  { intros w N. unfold res, sS, sW. destruct strong, v as [x0 [|]| |]; cbn [fst];
+      rewrite ?set_tags_get, ?set_alloc_tags; auto; destruct (p_tags P); auto;
+      destruct (N.eqb_spec w g); congruence. }
+  assert (TGOFF : p_tags P = false -> forall w, r_tags (fst res) w = r_tags a w).
+  { intros Off w. unfold res, sS, sW. destruct strong, v as [x0 [|]| |]; cbn [fst];
+      rewrite ?set_tags_get, ?set_alloc_tags, ?Off, ?set_alloc_tags; auto. }
+  unfold c' in *. clear c'.
+  constructor.
+  - constructor; cbn [r_base r_rgn set_rgn].
+    + exact GB.
+    + intros g'. unfold count. cbn [r_rgn]. rewrite RG. destruct (N.eq_dec g' g) as [->|N].
+      * rewrite fupd_same. apply (rc_count _ _ RC).
+      * rewrite fupd_other by auto. apply (rc_count _ _ RC).
+    + intros g'. unfold rinit. cbn [r_rgn]. rewrite RG. destruct (N.eq_dec g' g) as [->|N].
+      * rewrite fupd_same. exact I.
+      * rewrite fupd_other by auto. apply (igamma_hp _ c).
+        -- intros x. apply HPO; auto.
+        -- apply (rc_init _ _ RC).
+    + intros g' x w Hw. cbn in Hw. change (In x (addrs c g')).
+      destruct (N.eq_dec g' g) as [->|N]; [|rewrite hupd_other_rgn in Hw by auto; eapply (rc_wf _ _ RC); eauto].
+      destruct (Z.eq_dec x a0) as [->|N]; auto.
+      rewrite hupd_other_addr in Hw by auto. eapply (rc_wf _ _ RC); eauto.
+  - intros w Kw. assert (N : w <> g) by (intros ->; apply refv_nonrgn in Kw; congruence).
+    cbn [r_alloc set_rgn c_st]. rewrite upd_other by auto. rewrite ALO by auto.
+    change (sgamma c (r_alloc a w) (c_st c w)). apply (r_svar _ _ R); auto.
+  - intros g' Kg' x w Hw. cbn [r_alloc set_rgn]. cbn in Hw.
+    destruct (N.eq_dec g' g) as [->|N].
+    2:{ rewrite hupd_other_rgn in Hw by auto. rewrite ALO by auto.
+        change (sgamma c (r_alloc a g') w). eapply (r_srgn _ _ R); eauto. }
+    destruct (p_alloc P) eqn:PA; [|rewrite ALOFF by auto; rewrite (r_soff _ _ R PA); exact I].
+    match goal with |- sgamma ?cc ?d ?y => change (sgamma c d y) end.
+    destruct (Z.eq_dec x a0) as [->|Nx].
+    + rewrite hupd_same in Hw. inversion Hw; subst w. clear Hw.
+      unfold res, sS, sW. destruct v as [x0 isr| |].
+      * destruct OK as [K0 K1]. destruct (K1 Kg') as [-> Kr0].
+        pose proof (r_svar _ _ R x0 Kr0) as X.
+        assert (Z0 : z = c_st c x0) by (unfold z, sval_val; apply eval_le_var). rewrite Z0.
+        destruct strong; cbn [fst]; rewrite set_tags_alloc, set_alloc_get, PA, N.eqb_refl; auto.
+        apply sg_join; auto.
+      * cbn in OK. congruence.
+      * assert (Z0 : z = 0) by (unfold z, sval_val; apply eval_le_const). rewrite Z0. apply sgamma_zero.
+    + rewrite hupd_other_addr in Hw by auto.
+      pose proof (r_srgn _ _ R g Kg' _ _ Hw) as X.
+      unfold res. destruct strong eqn:ST; [elim Nx; eapply EXCL; eauto|]. cbn [fst]. unfold sW.
+      destruct v as [x0 isr| |]; auto.
+      destruct OK as [K0 K1]. destruct (K1 Kg') as [-> Kr0].
+      rewrite set_tags_alloc, set_alloc_get, PA, N.eqb_refl. apply sg_join; auto.
+  - intros Off w. cbn [r_alloc set_rgn]. rewrite ALOFF by auto. apply (r_soff _ _ R); auto.
+  - cbn. apply (r_anull _ _ R).
+  - intros w Kw. assert (N : w <> g) by (intros ->; congruence).
+    cbn [r_tags set_rgn c_vtg]. rewrite TGO by auto. apply (r_tvar _ _ R); auto.
+  - intros g' Kg' x. cbn [r_tags set_rgn c_htg].
+    destruct (N.eq_dec g' g) as [->|N].
+    2:{ rewrite hupd_other_rgn by auto. rewrite TGO by auto. apply (r_trgn _ _ R); auto. }
+    destruct (p_tags P) eqn:PT; [|rewrite TGOFF by auto; rewrite (r_toff _ _ R PT); exact I].
+    destruct (Z.eq_dec x a0) as [->|Nx].
+    + rewrite hupd_same. unfold res, sS, sW. destruct v as [x0 isr| |]; cbn [sval_tags].
+      * destruct OK as [K0 K1]. pose proof (r_tvar _ _ R x0 K0) as X.
+        destruct strong; cbn [fst]; destruct isr; rewrite set_tags_get, PT, N.eqb_refl, ?set_alloc_tags; auto;
+          apply tg_join; auto.
+      * apply tg_nil.
+      * apply tg_nil.
+    + rewrite hupd_other_addr by auto.
+      pose proof (r_trgn _ _ R g Kg' x) as X.
+      unfold res. destruct strong eqn:ST; cbn [fst].
+      * destruct (c_hp c g x) as [w|] eqn:Hx; [elim Nx; eapply EXCL; eauto|].
+        rewrite (r_tuw _ _ R _ _ Hx). apply tg_nil.
+      * unfold sW. destruct v as [x0 isr| |]; auto; try (destruct isr); rewrite ?set_alloc_tags; auto;
+          rewrite set_tags_get, PT, N.eqb_refl, ?set_alloc_tags; apply tg_join; auto.
+  - intros Off w. cbn [r_tags set_rgn]. rewrite TGOFF by auto. apply (r_toff _ _ R); auto.
+  - intros g' x Hx. cbn in *.
+    destruct (N.eq_dec g' g) as [->|N].
+    + destruct (Z.eq_dec x a0) as [->|Nx]; [rewrite hupd_same in Hx; discriminate|].
+      rewrite hupd_other_addr in * by auto. apply (r_tuw _ _ R); auto.
+    + rewrite hupd_other_rgn in * by auto. apply (r_tuw _ _ R); auto.
+Qed.
 End WithKinds.
+
